@@ -115,7 +115,7 @@ def _dataset_rule(node: Node) -> list:
             f'A dataset should contain at least one Data Table.',
             node
         ))
-    if not (intellectual_rights_node and intellectual_rights_node.content):
+    if not (intellectual_rights_node and get_text_content(intellectual_rights_node)):
         evaluation.append((
             EvaluationWarning.INTELLECTUAL_RIGHTS_MISSING,
             f'An Intellectual Rights policy should be specified.',
